@@ -168,11 +168,11 @@ func (s *c08Server) stop() {
 
 // c08Req is one request of a program: how to send it and what it does to the acknowledged model.
 type c08Req struct {
-	desc  string
-	send  func(s *drive.Srv) drive.Status
-	apply func(reg c14Registry) // effect if wholly applied (on a clone)
-	valid bool                   // expected to be acknowledged
-	crashPoints []string         // instrumented points this request passes through
+	desc        string
+	send        func(s *drive.Srv) drive.Status
+	apply       func(reg c14Registry) // effect if wholly applied (on a clone)
+	valid       bool                  // expected to be acknowledged
+	crashPoints []string              // instrumented points this request passes through
 }
 
 func c08CloneReg(reg c14Registry) c14Registry {
@@ -184,7 +184,7 @@ func c08CloneReg(reg c14Registry) c14Registry {
 }
 
 // c08Gen generates the next request given the current acknowledged registry.
-func c08Gen(r *common.Rand, reg c14Registry, kf03Open bool, realClock bool) c08Req {
+func c08Gen(r *common.Rand, reg c14Registry, kf03Open bool, realClock bool, firstDef map[string]map[string]*model.GcRule) c08Req {
 	parent := c14Parents[0]
 	id := common.Pick(r, c14Ids[:2])
 	name := drive.TableName(parent, id)
@@ -196,6 +196,10 @@ func c08Gen(r *common.Rand, reg c14Registry, kf03Open bool, realClock bool) c08R
 			if r.Chance(3, 4) {
 				fams[f] = c14RandGc(r)
 			}
+		}
+		// half of the re-creations use exactly the definition the table had when it was deleted
+		if prev, ok := firstDef[name]; ok && r.Bool() {
+			fams = prev // the definition the table had when it was deleted
 		}
 		return c08Req{desc: fmt.Sprintf("CreateTable(%s,%s)", id, famString(fams)), valid: true,
 			send: func(s *drive.Srv) drive.Status { return drive.CreateTable(s.Admin, parent, id, fams) },
@@ -209,7 +213,12 @@ func c08Gen(r *common.Rand, reg c14Registry, kf03Open bool, realClock bool) c08R
 			crashPoints: append(append([]string{}, metaPoints...), "disk.create.afterMeta", "disk.nuke.afterRemove", "disk.open.afterOpen")}
 	}
 	switch k := r.Intn(20); {
-	case k < 1:
+	case k < 2:
+		last := map[string]*model.GcRule{}
+		for f, g := range m.Families {
+			last[f] = g
+		}
+		firstDef[name] = last
 		return c08Req{desc: fmt.Sprintf("DeleteTable(%s)", id), valid: true,
 			send: func(s *drive.Srv) drive.Status {
 				ctx, cancel := drive.Ctx()
@@ -318,7 +327,7 @@ func c08Gen(r *common.Rand, reg c14Registry, kf03Open bool, realClock bool) c08R
 		}
 		v, _ := m.Apply(key, muts, gen.BaseClock)
 		return c08Req{desc: fmt.Sprintf("MutateRow(%s,%q,%s)", id, key, model.MutsString(muts)), valid: v == model.MustOK,
-			send:  func(s *drive.Srv) drive.Status { return drive.MutateRow(s.Data, name, key, muts) },
+			send: func(s *drive.Srv) drive.Status { return drive.MutateRow(s.Data, name, key, muts) },
 			apply: func(reg c14Registry) {
 				if v, nr := reg[name].Apply(key, muts, gen.BaseClock); v != model.MustErr {
 					reg[name].Commit(key, nr)
@@ -404,6 +413,7 @@ func c08Program(run *common.Run, p int, base string) {
 	}
 	defer func() { s.stop() }()
 	reg := c14Registry{}
+	firstDef := map[string]map[string]*model.GcRule{}
 	var steps []string
 	removedSomething := false
 	imgNo := 0
@@ -444,7 +454,7 @@ func c08Program(run *common.Run, p int, base string) {
 	cycles := 0
 	pointTurn := r.Intn(3)
 	for step := 0; step < n; step++ {
-		req := c08Gen(r, reg, run.KnownOpen("KF03"), false)
+		req := c08Gen(r, reg, run.KnownOpen("KF03"), false, firstDef)
 		// (ii) crash at an instrumented point inside this request?
 		if len(req.crashPoints) > 0 && req.valid && (step+pointTurn)%2 == 0 && cycles < 5 {
 			point := common.Pick(r, req.crashPoints)
@@ -618,6 +628,7 @@ func c08RealBinary(run *common.Run, p int, dir string) {
 	defer os.RemoveAll(dir)
 	r := run.Rand("C08.real", p)
 	reg := c14Registry{}
+	firstDef := map[string]map[string]*model.GcRule{}
 	var steps []string
 	start := func() (*exec.Cmd, *drive.Srv, string) {
 		l, err := net.Listen("tcp", "127.0.0.1:0")
@@ -671,7 +682,7 @@ func c08RealBinary(run *common.Run, p int, dir string) {
 	n := r.Range(25, 50)
 	kills := 0
 	for step := 0; step < n; step++ {
-		req := c08Gen(r, reg, false, true)
+		req := c08Gen(r, reg, false, true, firstDef)
 		st := req.send(srv)
 		steps = append(steps, req.desc+" -> "+st.String())
 		if req.valid && !st.OK() {
